@@ -626,6 +626,13 @@ impl Session {
 
         let req = HandshakeReq::from(payload.iter().copied())?;
 
+        // A handshake restarts nothing: a new session begins with a new connection (`reset()`).
+        // And a peer granting us no window could never be sent anything.
+        if self.is_established() || req.window_size == 0 {
+            warn!("RX handshake integrity failure: {:?}", req);
+            return Err(ErrorCode::InvalidData.into());
+        }
+
         let version = req.versions().min().unwrap_or(4);
 
         let mtu = if req.mtu == 0 {
@@ -658,7 +665,8 @@ impl Session {
 
         // Remove the header as we need to report back the payload MTU
         // and we'll use the payload MTU anyway for all operations
-        let mtu = mtu - GATT_HEADER_SIZE as u16;
+        // (whatever the peer and the GATT stack claim, no ATT MTU is outside this range)
+        let mtu = mtu.clamp(MIN_MTU, MAX_MTU) - GATT_HEADER_SIZE as u16;
 
         // Make sure we are using a window size that would allow us to receive at least one full BTP SDU
         // TODO: Revisit the mtu and window_size computations
@@ -682,6 +690,18 @@ impl Session {
         RecvWindow::check_handshake_integrity(&hdr)?;
 
         let resp = HandshakeResp::from(payload.iter().copied())?;
+
+        // The response must select what we can work with: the version we proposed, a segment
+        // size a BTP segment fits in, and a non-empty window. And it comes once per session.
+        if self.is_established()
+            || resp.version != 4
+            || resp.mtu < MIN_MTU - GATT_HEADER_SIZE as u16
+            || resp.mtu > MAX_MTU - GATT_HEADER_SIZE as u16
+            || resp.window_size == 0
+        {
+            warn!("RX handshake integrity failure: {:?}", resp);
+            return Err(ErrorCode::InvalidData.into());
+        }
 
         debug!("\n>>RCV (BTP IO) {} [{}]\n      HANDSHAKE RESP {:?}\nSelected version: {}, MTU: {}, window size: {}", address, hdr, resp, resp.version, resp.mtu, resp.window_size);
 
